@@ -21,7 +21,7 @@ AssignSet == BaseTypes \cup Arrays({TBool, TByte, TU(8), TU(16), TAddr, TStr}, {
                    TDA(TTup(<<TByte, TU(8)>>)), TDA(TTup(<<TU(8), TByte>>)), TSA(TTup(<<TU(8), TU(8)>>), 2), TSA(TSA(TU(8), 2), 2),
                    TTup(<<TU(8), TU(8), TU(8), TU(8)>>), TSA(TU(8), 3), TSA(TU(8), 4), TTup(<<TTup(<<TU(8), TStr>>), TU(8)>>),
                    TTup(<<TNamed(<<TU(64), TStr>>, "A"), TU(8)>>), TTup(<<TTup(<<TU(64), TStr>>), TU(8)>>)}
-Set == CASE Universe = "level1" -> Level1 [] Universe = "level2" -> Level2 [] Universe = "assign" -> AssignSet [] Universe = "strings" -> Strings
+Set == CASE Universe = "level1" -> Level1 [] Universe = "level2" -> Level2 [] Universe = "assign" -> AssignSet [] Universe = "strings" -> Strings [] Universe = "wide" -> Wide
 SampleOf(x, j) == IF Universe = "strings" THEN ValLong(x, j) ELSE Val(x, j)
 
 HasValues(x) == x.k \notin {"ref", "txn"}
